@@ -7,7 +7,7 @@ CONSTANT MaxLen
 \* what varies between exporting processes that talk to one endpoint: the CA they trust (the endpoint's
 \* certificate chains to it or not), the ServerName they expect, and when they connect (validity)
 HCells == { [side |-> "exporter", proto |-> "tls", srvCert |-> sc, srvName |-> sn, cliCert |-> "none", cliCA |-> FALSE,
-             peerMax |-> pm, plain |-> FALSE, cfg |-> "ok", nb |-> pd[1], na |-> pd[2]] :
+             peerMax |-> pm, plain |-> FALSE, cfg |-> "ok", nb |-> pd[1], na |-> pd[2], addr |-> "ip", srvChain |-> "A"] :
             sc \in {"trusted", "otherCA"}, sn \in {"match", "mismatch"}, pm \in {12, 13},
             pd \in { <<-3600, 43200>>, <<120, 43200>> } }
 Init == sess = << >>
